@@ -248,3 +248,29 @@ pub fn write_out(rep: &Report, out_dir: &str, tag: &str, shard_size: usize) -> s
         serde_json::to_string_pretty(&j).unwrap(),
     )
 }
+
+/// Input bytes placed at a chosen offset from an 8-byte aligned address: the allocator
+/// hands out aligned `Vec<u8>`s, so without this every parser would only ever see aligned
+/// input and a zero-copy read with an alignment requirement would go unnoticed.
+pub struct Shifted {
+    backing: Vec<u64>,
+    shift: usize,
+    len: usize,
+}
+impl Shifted {
+    pub fn new(b: &[u8], shift: usize) -> Self {
+        let shift = shift % 8;
+        let mut backing = vec![0u64; (b.len() + shift + 7) / 8 + 1];
+        let bytes: &mut [u8] = bytemuck::cast_slice_mut(&mut backing);
+        bytes[shift..shift + b.len()].copy_from_slice(b);
+        Shifted { backing, shift, len: b.len() }
+    }
+    pub fn bytes(&self) -> &[u8] {
+        let bytes: &[u8] = bytemuck::cast_slice(&self.backing);
+        &bytes[self.shift..self.shift + self.len]
+    }
+    pub fn bytes_mut(&mut self) -> &mut [u8] {
+        let bytes: &mut [u8] = bytemuck::cast_slice_mut(&mut self.backing);
+        &mut bytes[self.shift..self.shift + self.len]
+    }
+}
